@@ -272,6 +272,37 @@ def r29(ctx: Ctx) -> RuleReport:
         if isinstance(n, ast.Assign) and norm(n.targets[0]) == 'self._role_re':
             pat = n
     if pat is None or not (isinstance(pat.value, ast.Call) and pat.value.args):
+        # one compiled pattern per role instead of one alternation?
+        pmi = repo.parent_map(init.node)
+        for c in walk_local(init.node):
+            if not (isinstance(c, ast.Call) and norm(c.func) in ('re.compile', 'compile') and c.args):
+                continue
+            lp = next((a for a in _anc(pmi, c) if isinstance(a, (ast.For, ast.comprehension, ast.ListComp, ast.GeneratorExp))), None)
+            gens = [lp] if isinstance(lp, (ast.For, ast.comprehension)) else (lp.generators if lp is not None else [])
+            for g_ in gens:
+                if not (isinstance(g_.target, ast.Name) and all(w in norm(g_.iter) for w in ('roles', 'top_role', 'concept_role'))):
+                    continue
+                try:
+                    pieces = _template_pieces(ctx, init, c.args[0], c)
+                except AnalysisError:
+                    continue
+                idx = [i for i, x in enumerate(pieces) if x[0] != 'lit']
+                if len(idx) != 1:
+                    continue
+                before = ''.join(x[1] for x in pieces[:idx[0]])
+                after = ''.join(x[1] for x in pieces[idx[0] + 1:])
+                key = f'{init.fq}: each role pattern is grouped and anchored so that a role matches as a whole'
+                grouped = (before.endswith('(') or before.endswith('(?:')) and after.startswith(')')
+                if grouped and (after.endswith('$') or full):
+                    rep.ok(key, init.loc(c), f'{before}<pattern>{after}')
+                elif not grouped and ('^' in before or '$' in after):
+                    rep.violation(key, init.loc(c), f'every key of the role inventory is compiled as {before!r} + key + {after!r}: the key is a regular expression and may hold a '
+                                  f'top-level alternation - for ":ARG[0-9]|:op[0-9]+" the anchors then bind to the outer alternatives only ("^:ARG[0-9]" or ":op[0-9]+$"), so '
+                                  f'":ARG0-of" counts as a role the model defines: it is neither recognised as inverted nor deinverted. The single pattern it replaces '
+                                  f'wrapped all alternatives in one group')
+                else:
+                    rep.undecided(key, init.loc(c), f'{before!r} + key + {after!r}')
+                return rep
         rep.undecided(f'{init.fq}: the role pattern', init.loc(), 'no assignment self._role_re = re.compile(...)')
         return rep
     pieces = _template_pieces(ctx, init, pat.value.args[0], pat)
